@@ -241,6 +241,13 @@ def run_config(chk, config):
               {"obligation": "InvalidOriginalAVPLength carries the decrypted original length", "paths": okr})
     # ---- single-fault attribution at the first AVP: ControlMessageTypeNotFirst only for a decodable non-MessageType
     eng = new_engine(chk, fx)
+
+    def on_ret(frame, st, rv):
+        # the vector of per-record results, however the caller then looks at its first element
+        if frame.key == a.avp_greedy["key"] and isinstance(rv, VRef):
+            st.ghost = dict(st.ghost)
+            st.ghost["greedy_result"] = rv.cell
+    eng.hooks["return"] = on_ret
     rets = eng.analyse(a.ctrl_try_read["key"], name="ControlMessage::try_read[%s]" % config)
     n_nf = 0
     bad_nf = []
@@ -248,8 +255,8 @@ def run_config(chk, config):
         items = err_items(eng, s, v)
         if len(items) == 1 and tables.variant_name(eng, items[0]) == "ControlMessageTypeNotFirst":
             n_nf += 1
-            firsts = [e for e in s.events() if e[0] == "first"]
-            vv = s.cells.get(firsts[-1][1]) if firsts else None
+            src = s.ghost.get("greedy_result")
+            vv = s.cells.get(src) if src is not None else None
             if not (isinstance(vv, VVec) and eng.ent(s, c_eq(Lin.sym("%s[0]#v" % vv.name), Lin.const(0)))):
                 bad_nf.append(s.notes()[-3:])
     chk.oblig(n_nf >= 1 and not bad_nf, "attribution | first AVP",
